@@ -409,3 +409,103 @@ func TestC07_Concurrent(t *testing.T) {
 	cov.NonTrivial("c07.concurrent", []byte("b"))
 	judge(t, "c07.concurrent", c07ConcCheck, c)
 }
+
+// c07.faulty: the default source itself, wrapped so that it fails after k bytes with an
+// operating-system style error (getrandom blocked by seccomp, no /dev/urandom in a chroot, ...).
+// "Output is a function of that source's bytes only": a sentence may only be returned when the
+// wrapped source delivered 4n/3 bytes, and must be their encoding; nothing else may be substituted.
+type faultyDefaultCase struct {
+	Lang  string `json:"lang"`
+	N     int    `json:"n"`
+	After int    `json:"after"` // bytes crypto/rand.Reader delivers before failing
+	Err   string `json:"err"`
+	// WithBytes: the failing Read call also returns the bytes that were still due
+	WithBytes bool `json:"with_bytes,omitempty"`
+}
+
+type faultyDefault struct {
+	r     io.Reader
+	left  int
+	err   error
+	with  bool
+	taken bytes.Buffer
+	done  bool
+}
+
+func (f *faultyDefault) Read(p []byte) (int, error) {
+	if f.done {
+		return 0, f.err
+	}
+	k := min(len(p), f.left)
+	n, err := io.ReadFull(f.r, p[:k])
+	f.taken.Write(p[:n])
+	f.left -= n
+	if err != nil {
+		return n, err
+	}
+	if f.left == 0 {
+		if f.with || n == 0 {
+			f.done = true
+			return n, f.err
+		}
+	}
+	return n, nil
+}
+
+var c07FaultyCheck = register("C07", "c07.faulty", func(c *faultyDefaultCase) error {
+	l := mustLang(c.Lang)
+	need := c.N / 3 * 4
+	if !ref.ValidCount(c.N) || c.After >= need || c.After < 0 {
+		harnessError("c07.faulty: bad case")
+	}
+	src := &faultyDefault{left: c.After, err: eventErr(c.Err), with: c.WithBytes}
+	prev := bip39.VerifSwapRandSource(src)
+	src.r = prev
+	got, err, p := implNew(c.N, implLang[l])
+	bip39.VerifSwapRandSource(prev)
+	sig := "C07 faulty-source " + c.Err
+	if p != nil {
+		return failf(sig+" panic", "NewMnemonic(%d, %s) panicked: %v", c.N, l, p)
+	}
+	if got == "" && err != nil {
+		return nil
+	}
+	drawn := src.taken.Bytes()
+	if len(drawn) < need {
+		return failf(sig+" substituted", "the default source delivered %d of the %d bytes and then failed with %v; NewMnemonic(%d, %s) nevertheless returned (%q, %v): the missing bytes came from somewhere else", len(drawn), need, src.err, c.N, l, got, err)
+	}
+	if err == nil && got == ref.Encode(drawn[:need], l) {
+		return nil
+	}
+	return failf(sig, "NewMnemonic(%d, %s) = (%q, %v), which is not the encoding of the bytes %x the source delivered", c.N, l, got, err, drawn)
+})
+
+func TestC07_Faulty(t *testing.T) {
+	cov.Rule(c07Rule + " || (c) the default source wrapped to fail after k of the 4n/3 bytes with each of 18 error kinds (EOF, EAGAIN, timeout, ENOSYS from getrandom, ENOENT/EACCES opening /dev/urandom, EPERM, EINTR, EIO, fs.ErrNotExist, ...): no sentence may be returned, since its bytes could not have come from the source")
+	item := 0
+	kinds := append([]string{"EOF", "UnexpectedEOF", "custom", "EAGAIN", "timeout"}, osErrKinds...)
+	for _, l := range allLangs() {
+		for _, n := range ref.Counts {
+			need := n / 3 * 4
+			for ki, kind := range kinds {
+				for _, after := range []int{0, 1, need / 2, need - 1, (int(l)*7 + ki*3 + n) % need} {
+					for _, with := range []bool{false, true} {
+						item++
+						if !mine(item) {
+							continue
+						}
+						c := &faultyDefaultCase{Lang: l.Name(), N: n, After: after, Err: kind, WithBytes: with}
+						cov.Eval(1)
+						cov.Class("faulty-default-source")
+						cov.Class("err=" + kind)
+						cov.NonTrivial("c07.faulty", []byte(fmt.Sprint(*c)))
+						if item == 777 {
+							cov.Sample("c07.faulty", c)
+						}
+						judge(t, "c07.faulty", c07FaultyCheck, c)
+					}
+				}
+			}
+		}
+	}
+}
